@@ -21,6 +21,7 @@ type TV struct {
 
 type SpecEnv struct {
 	lets        map[string]ast.Expr
+	addrs       map[string]*PtrV // heap-allocated named locals: their addresses (for &x in specifications)
 	inPost      bool // evaluating a postcondition of the function being verified
 	noUnfold    bool // inside the body of a specfn being unfolded: inner applications stay folded
 	assumeLocks bool // evaluating the precondition of the function under verification: holds(x) defines the entry lockset
@@ -233,6 +234,10 @@ func (ex *Exec) loopEnv(st *State, fr *Frame) *SpecEnv {
 			if p, ok := val.(*PtrV); ok && isIdent(a.Comment) {
 				if _, dup := env.vars[a.Comment]; !dup || true {
 					env.vars[a.Comment] = TV{ex.load(st, p), p.Elem}
+					if env.addrs == nil {
+						env.addrs = map[string]*PtrV{}
+					}
+					env.addrs[a.Comment] = p
 				}
 			}
 		}
@@ -463,6 +468,15 @@ func (env *SpecEnv) eval(e ast.Expr) TV {
 		}
 		return TV{ex.load(env.st, p), p.Elem}
 	case *ast.UnaryExpr:
+		if x.Op == token.AND {
+			// &local: address of a heap-allocated named local of the function
+			if id, ok := x.X.(*ast.Ident); ok {
+				if p, ok := env.addrs[id.Name]; ok {
+					return TV{p, types.NewPointer(p.Elem)}
+				}
+			}
+			tool("spec: unsupported expression %s", exprString(e))
+		}
 		v := env.eval(x.X)
 		switch x.Op {
 		case token.NOT:
@@ -690,6 +704,12 @@ func (env *SpecEnv) ghostType(name string) types.Type {
 		return types.Typ[types.Bool]
 	case "string":
 		return types.Typ[types.String]
+	case "imap":
+		return ghostIMapType
+	case "bmap":
+		return ghostBMapType
+	case "bytes":
+		return ghostBytesType
 	}
 	e, err := parser.ParseExpr(kind)
 	if err != nil {
@@ -983,6 +1003,50 @@ func (env *SpecEnv) evalCall(c *ast.CallExpr) TV {
 			et := under(tt).(*types.Slice).Elem()
 			h := env.st.heapGet("[]"+typeName(et)+"@tag", heapSort(2, SInt))
 			return TV{Scalar{Select(h, sv.Arr)}, nil}
+		case "below":
+			// below(x): the object(s) x refers to already exist (at or before the current allocation frontier)
+			v := env.eval(c.Args[0])
+			var cs []*Term
+			switch x := v.V.(type) {
+			case *PtrV:
+				cs = append(cs, Le(ptrTerm(x), env.st.Frontier))
+			case SliceV:
+				cs = append(cs, Le(x.Arr, env.st.Frontier))
+			case IfaceV:
+				cs = append(cs, Le(x.Val, env.st.Frontier))
+			case Scalar:
+				cs = append(cs, Le(x.T, env.st.Frontier))
+			default:
+				tool("spec: below of %T", v.V)
+			}
+			return TV{Scalar{And(cs...)}, boolT}
+		case "allbelow":
+			// allbelow(s): every element of the pointer slice s refers to an object that already exists
+			// (allocated at or before the current allocation frontier). True of every real execution; as a
+			// loop invariant it lets "the object allocated next differs from all of them" be derived.
+			a0 := env.eval(c.Args[0])
+			sv, ok := a0.V.(SliceV)
+			if !ok || a0.T == nil {
+				tool("spec: allbelow of a non-slice")
+			}
+			et := under(a0.T).(*types.Slice).Elem()
+			cs := comps(et)
+			if len(cs) != 1 || cs[0].Sort != SInt {
+				tool("spec: allbelow: elements of %s are not references", typeName(et))
+			}
+			h := env.st.heapGet("[]"+typeName(et)+cs[0].Suffix, heapSort(2, SInt))
+			k := Fresh("q_ab", SInt)
+			return TV{Scalar{Forall([]*Term{k}, Implies(And(Le(Zero, k), Lt(k, sv.Len)), Le(Select(Select(h, sv.Arr), Add(sv.Off, k)), env.st.Frontier)))}, boolT}
+		case "ref":
+			// ref(p): the allocation order of the object p points to (later allocations are larger)
+			v := env.eval(c.Args[0])
+			switch p := v.V.(type) {
+			case *PtrV:
+				return TV{Scalar{ptrTerm(p)}, intT}
+			case Scalar:
+				return TV{Scalar{p.T}, intT}
+			}
+			tool("spec: ref of a non-pointer")
 		case "view":
 			// view(x, I): the interface value x seen under interface type I (ghost fields are per static type)
 			v := env.eval(c.Args[0])
@@ -1417,6 +1481,9 @@ func (ex *Exec) evalPureFn(st *State, fn *ssa.Function, args []Value, binds ...V
 		// extern pure function with contract
 		tmp := st
 		fr := &Frame{Fn: fn, Regs: map[ssa.Value]Value{}}
+		save := ex.inSpecCall
+		ex.inSpecCall = true
+		defer func() { ex.inSpecCall = save }()
 		return ex.applyContract(tmp, fr, sp, fn, fn.Signature, args, token.NoPos, "")
 	}
 	if m, ok := models[fn.String()]; ok {
